@@ -118,18 +118,41 @@ func runC13(c *core.Case) *core.Result {
 		if existing == "other-type" {
 			existType = otherType(typ, r)
 		}
-		owner = newClient("owner")
-		od := owner.Open(key, existType, bed.Create)
-		owner.Register()
-		if res := mustSync(owner); res != nil {
-			return res
-		}
-		if point != "fresh" {
-			for j := 0; j < 2+r.Intn(5); j++ {
-				w.localOp(od)
+		if existType == "doc" && r.Intn(3) == 0 {
+			// the existing document was made by the REST patch route (the server's own datatype
+			// instance created it), not by a client: entering it is the same contract
+			npatch := 1
+			if point != "fresh" {
+				npatch = 2 + r.Intn(3)
 			}
+			for j := 0; j < npatch; j++ {
+				out := bed.Guard(15e9, func(ctx context.Context) error {
+					_, err := w.b.Svc.PatchDocument(ctx, &model.PatchMessage{Collection: "colA", Key: key, Json: fmt.Sprintf(`{"made":"by-rest","n":%d,"l":[%d,2]}`, j, j)})
+					return err
+				})
+				if out.Err != nil || out.TimedOut || out.Panic != "" {
+					return c.Inconclusive("setup: REST patch failed: %v %s", out.Err, out.Panic)
+				}
+				if !w.idle() {
+					return c.Inconclusive("idle")
+				}
+			}
+			w.ledger.SkipKeys[key] = true // the patch client's operations are offered by no client of the harness
+			c.Count("existing_documents_made_by_rest_patch", 1)
+		} else {
+			owner = newClient("owner")
+			od := owner.Open(key, existType, bed.Create)
+			owner.Register()
 			if res := mustSync(owner); res != nil {
 				return res
+			}
+			if point != "fresh" {
+				for j := 0; j < 2+r.Intn(5); j++ {
+					w.localOp(od)
+				}
+				if res := mustSync(owner); res != nil {
+					return res
+				}
 			}
 		}
 	case "self-subscribed":
